@@ -86,3 +86,63 @@ def evaluate(paths, assignment):
     if len(hits) != 1:
         raise Undecidable("%d paths consistent with %r" % (len(hits), assignment))
     return hits[0][0]
+
+
+def select_of(f, local):
+    """A local assigned on exactly two paths that are the two sides of one two-way branch:
+    -> (condition expr, value if the condition is true, value if false), else None."""
+    from qv.engine import fn_expr_rvalue as _rv
+    defs = []
+    for d in f.defs().get(local, []):
+        if d[0] == "s" and d[3]["k"] == "assign" and not d[3]["p"]["pr"]:
+            defs.append((d[1], _rv(f, d[3]["rv"])))
+        elif d[0] == "t" and not d[3]["dest"]["pr"]:
+            c = callee_of(d[3])
+            args = [fn_expr_operand(f, a) for a in d[3]["args"]]
+            from qv.engine import TRANSPARENT_CALLS
+            p = callee_path(c) if c else None
+            if p and (TRANSPARENT_CALLS.search(p) or p.endswith("::clone")) and args:
+                defs.append((d[1], args[0]))
+            else:
+                defs.append((d[1], ("call", p, args, d[1])))
+    if len(defs) != 2:
+        return None
+    sides = []
+    for bb, val in defs:
+        cds = list(f.control_deps(bb, transitive=False))
+        if len(cds) != 1:
+            return None
+        sb, tgt = cds[0]
+        t = f.blocks[sb]["t"]
+        if t["k"] != "switch":
+            return None
+        e, neg = _strip_not(fn_expr_operand(f, t["d"]))
+        taken = [int(v) for v, x in t["ts"] if x == tgt]
+        truthy = (taken != [0]) if taken else ([int(v) for v, x in t["ts"]] == [0])
+        if neg:
+            truthy = not truthy
+        sides.append((sb, truthy, val, e))
+    if sides[0][0] != sides[1][0] or sides[0][1] == sides[1][1]:
+        return None
+    t_val = [s for s in sides if s[1]][0][2]
+    f_val = [s for s in sides if not s[1]][0][2]
+    return sides[0][3], t_val, f_val
+
+
+def minmax_of(sel, same):
+    """classify ite(cmp(x, y), a, b) as ('min'|'max', x, y) when {a, b} = {x, y}; `same` compares origin expressions"""
+    if not sel:
+        return None
+    cond, vt, vf = sel
+    if cond[0] == "call" and cond[1].rsplit("::", 1)[-1] in ("lt", "le", "gt", "ge") and len(cond[2]) == 2:
+        op, x, y = cond[1].rsplit("::", 1)[-1], cond[2][0], cond[2][1]
+    elif cond[0] == "bin" and cond[1] in ("Lt", "Le", "Gt", "Ge"):
+        op, x, y = cond[1].lower(), cond[2], cond[3]
+    else:
+        return None
+    less = op in ("lt", "le")
+    if same(vt, x) and same(vf, y):
+        return ("min" if less else "max", x, y)
+    if same(vt, y) and same(vf, x):
+        return ("max" if less else "min", x, y)
+    return None
